@@ -20,9 +20,12 @@
 
 #if SIZE == 1
 typedef unsigned char elem_t;
+#define Q_NONDET() nondet_uchar()
 #else
 typedef int elem_t;
+#define Q_NONDET() nondet_int()
 #endif
+#define Q_MAXN 6 /* largest NMEMB any case uses */
 
 static const char *g_q_base; /* first element */
 static size_t g_q_bytes;     /* nmemb * size */
@@ -65,5 +68,58 @@ static void *q_memcpy(void *dst, const void *src, size_t n)
     __CPROVER_assert(!q_near(dst) || q_inside(dst, n), "qsort: memcpy destination block lies inside the array (or is a private buffer)");
     __CPROVER_assert(!q_near(src) || q_inside(src, n), "qsort: memcpy source block lies inside the array (or is a private buffer)");
     return vc_memcpy(dst, src, n);
+}
+
+/* ---- induction over nmemb ----
+ * Unwinding qsort's recursion is out of reach beyond nmemb = 4 (> 15 min for 5), and the driver has no
+ * --enforce-contract-rec.  The recursive calls are therefore redirected - purely syntactically, the file is
+ * not edited - to vc_qsort_sub, a stub that IS qsort's contract for strictly smaller arrays:
+ *     #define qsort(a, b, c, d) QS_SEL_##a, b, c, d)
+ * pastes QS_SEL_ with the first token of the first argument: `void` in the definition
+ * `void qsort(void *vbase, ...)`, `base` / `i` in the two recursive calls `qsort(base, ...)`, `qsort(i, ...)`.
+ * (Any other spelling is a compile error, i.e. exit 2, never a verdict.)
+ * Case NMEMB = n proves the contract for arrays of n elements using it for arrays of fewer than n elements
+ * (asserted at the call), cases 0..3 need no recursion: induction over n, the one step that is a meta-argument.
+ * The contract: the block is sorted afterwards and every value occurs as often as before (stated for each old
+ * element value; the harness proves it for an arbitrary probe value, which is the same statement). */
+#define QS_SEL_void vc_qsort(void
+#define QS_SEL_base vc_qsort_sub(base
+#define QS_SEL_i vc_qsort_sub(i
+static void vc_qsort_sub(void *vb, size_t n, size_t size, int (*cmp)(const void *, const void *))
+{
+    __CPROVER_assert(size == SIZE && cmp == q_cmp, "qsort: recursive call passes size and compar on unchanged");
+    __CPROVER_assert(n < NMEMB, "qsort: recursive call is on a strictly smaller array (termination, induction hypothesis applies)");
+    __CPROVER_assert(q_inside(vb, n * SIZE), "qsort: recursive call is on a block of elements inside the array");
+#ifdef REPLAY
+    /* native replay: the stub sorts for real (insertion sort) */
+    elem_t *p = (elem_t *)vb;
+    for (size_t x = 1; x < n; x++)
+        for (size_t y = x; y > 0 && p[y - 1] > p[y]; y--) {
+            elem_t tmp = p[y];
+            p[y] = p[y - 1];
+            p[y - 1] = tmp;
+        }
+#else
+    elem_t *p = (elem_t *)vb;
+    elem_t old[Q_MAXN];
+    for (size_t x = 0; x < Q_MAXN; x++)
+        old[x] = x < n ? p[x] : 0;
+    for (size_t x = 0; x < Q_MAXN; x++)
+        if (x < n)
+            p[x] = Q_NONDET();
+    for (size_t x = 0; x + 1 < Q_MAXN; x++)
+        if (x + 1 < n)
+            __CPROVER_assume(p[x] <= p[x + 1]);
+    for (size_t v = 0; v < Q_MAXN; v++)
+        if (v < n) {
+            size_t c_old = 0, c_new = 0;
+            for (size_t x = 0; x < Q_MAXN; x++)
+                if (x < n) {
+                    c_old += (old[x] == old[v]);
+                    c_new += (p[x] == old[v]);
+                }
+            __CPROVER_assume(c_old == c_new);
+        }
+#endif
 }
 #endif
